@@ -3,7 +3,7 @@
    REGENERATED from /repo on every run: Gen/Gen_Comparators.v, Gen/Gen_MapRange.v) and followed by
    Print Assumptions. *)
 From Coq Require Import Sorting.Permutation Floats.
-From PV Require Import M_Order S_Order L_Order S_MapRange L_MapRange Gen.Gen_Comparators Gen.Gen_MapRange.
+From PV Require Import M_Order S_Order L_Order L_Sprint S_MapRange L_MapRange Gen.Gen_Comparators Gen.Gen_MapRange.
 Open Scope string_scope.
 Open Scope Z_scope.
 
@@ -140,6 +140,17 @@ Theorem sprint_not_injective : exists a b, info_eqb a b = false /\ sprint_info a
 Proof. eexists. eexists. exact sprint_not_injective_witness. Qed.
 Print Assumptions sprint_not_injective.
 
+(* ... and F8 is confined to names with spaces: without them fmt.Sprint(NodeInfo) is injective *)
+Theorem sprint_injective_if_no_spaces : forall a b,
+  info_no_spaces a = true -> info_no_spaces b = true -> sprint_info a = sprint_info b -> a = b.
+Proof. exact sprint_injective_if_no_spaces_lemma. Qed.
+Print Assumptions sprint_injective_if_no_spaces.
+
+Theorem no_spaces_not_F8 : forall l,
+  forallb (fun n => info_no_spaces (n_info n)) l = true -> in_F8 l = false.
+Proof. exact no_spaces_not_F8_lemma. Qed.
+Print Assumptions no_spaces_not_F8.
+
 (* ---------------- sorting leaves no freedom ---------------- *)
 
 (* a strict total order has exactly one sorted arrangement of a collection: neither the order in
@@ -187,6 +198,12 @@ Theorem sorted_sites_name_generated_comparators :
   forallb (fun e => sorted_by_known (map (fun c => fst (fst c)) comparators) (snd e)) maprange_table = true.
 Proof. vm_compute. reflexivity. Qed.
 Print Assumptions sorted_sites_name_generated_comparators.
+
+(* a site that relies on sorting still has its sorting call *)
+Theorem sorted_sites_still_sort :
+  forallb (sorted_site_has_sort_call map_range_sites sort_sites) maprange_table = true.
+Proof. vm_compute. reflexivity. Qed.
+Print Assumptions sorted_sites_still_sort.
 
 (* every sort.* call site is known *)
 Theorem all_sort_sites_known : forallb sort_site_known sort_sites = true.
